@@ -1,6 +1,28 @@
-import Ts.Kahn
+import Ts.Order
 
-/-! # C10 — property theorems (placeholder until the ordering theorem is proved) -/
+/-! # C10 — property theorems (statements only; proofs live in the family libraries)
+
+The planner-like part of C10 (`Pipeline.resolve`) is validated per run: every order the real `Initialize` returns is
+checked by `Ord.orderValid`; `orderValid_sound` is the proof that acceptance implies the property, `down_sound` that the
+exemption it uses is exactly "downstream" and no more. -/
+
+set_option linter.unusedVariables false
 
 namespace Props.C10
+
+section
+open Ord
+
+theorem orderValid_sound :
+    ∀ (items : List Item) (order : List Nat) (h : orderValid items order = true),
+    order.Nodup ∧ (∀ x ∈ order, x < items.length) ∧ (∀ i, i < items.length → i ∈ order) ∧
+    ∀ i q, i < items.length → q < items.length → q ≠ i → providesFor items q i = true →
+      ¬ Down items i q → order.idxOf q < order.idxOf i :=
+  @Ord.orderValid_sound
+
+theorem down_sound :
+    ∀ (items : List Item) (i q : Nat) (h : q ∈ down items i), Down items i q :=
+  @Ord.down_sound
+end
+
 end Props.C10
